@@ -95,7 +95,8 @@ class CallC(FragContract):
         env = cx.entry_env
         helper = lambda: Const(f'_parse_function_{node.program_id}', Val)
         if kind == 'rule-ref':
-            return Const('_try_A', Val)
+            # a rule passed as an argument is the same (late-bound, C13) function object a direct reference requests
+            return Const('_ctx._try_A' if ctx else '_try_A', Val)
         if kind == 'local-ref':
             return env['p']
         if kind == 'inline-python':
